@@ -204,6 +204,7 @@ class FakeKernel:
         self.allow_stop = self.sched.get("allow_stop", False)
         self.stop_unreported = set()
         self.stops_done = 0
+        self.was_stopped = set()       # a process is stopped at most once (as in Executor.tla: running -> stopped -> resumed)
         if self.sched.get("unrelated"):
             # a child of this process that Conductor did not start (exits some time during the run)
             self.proc[60001] = "running"
@@ -288,6 +289,7 @@ class FakeKernel:
     def do_stop(self, pid):
         self.proc[pid] = "stopped"
         self.stop_unreported.add(pid)
+        self.was_stopped.add(pid)
         self.stops_done += 1
         self._raise_sigchld()
         self.ev(e="Stop", pid=pid, t=self.task_of[pid])
@@ -321,7 +323,7 @@ class FakeKernel:
             opts = ["none"] + [("exit", p) for p in self.running()] + (["deliver"] if self.pending else [])
             if self.allow_stop:
                 if self.stops_done < 2:
-                    opts += [("stop", p) for p in self.running()]
+                    opts += [("stop", p) for p in self.running() if p not in self.was_stopped]
                 opts += [("cont", p) for p in self.stopped()]
             if len(opts) == 1:
                 break
